@@ -568,7 +568,14 @@ class BzrFastExporter:
             name = user
             email = ""
         else:
-            name, email = parseaddr(user)
+            # "Name <email>": split at the last "<" rather than with
+            # parseaddr, which applies RFC 822 address syntax to the name
+            # ("Doe, John <j@x>" -> ('', 'Doe'), "A: B <c@d>" -> ('B', 'c@d')).
+            m = re.match(r"^(.*?)\s*<([^<>]*)>\s*$", user, re.DOTALL)
+            if m is not None:
+                name, email = m.group(1), m.group(2)
+            else:
+                name, email = parseaddr(user)
         return name.encode("utf-8"), email.encode("utf-8")
 
     def _get_commit_command(self, git_ref, mark, revobj, file_cmds):
